@@ -530,6 +530,8 @@ impl<Db: Database> StorageManager<Db> {
             Err(other) => Err(other),
         }?;
         self.increment_metric(METRIC_GET_USER_STATE);
+        #[cfg(akd_verif)]
+        crate::verif_hooks::sim_point("fill").await;
 
         // in the event we are in a transaction, there may be an updated object in the
         // transactional storage. Therefore we should update the db retrieved value if
